@@ -115,9 +115,8 @@ SetSlices(a) == LET s == RunStarts(a) e == RunEnds(a) IN [k \in 1..Len(s) |-> <<
 (* [start, p); `start` when n = 0; the length when there are fewer than n    *)
 FindNth(a, start, n) ==
   IF n = 0 THEN start
-  ELSE LET S == {i \in SetPos(a) : i > start}
-       IN IF Cardinality(S) < n THEN Len(a)
-          ELSE CHOOSE p \in S : Cardinality({q \in S : q <= p}) = n
+  ELSE LET idx == SetIndices(Sub(a, start, Len(a) - start))       \* relative to start
+       IN IF Len(idx) < n THEN Len(a) ELSE start + idx[n] + 1
 
 (* BitIterator: forward = the bits, backward = reversed; its overrides of   *)
 (* nth / nth_back / last / max / count.  None is encoded as 2                *)
